@@ -101,6 +101,7 @@ def histories(draw, tier):
             "filter": draw(gens.local_filter_cfgs(k, decidable=True)) if draw(st.sampled_from([True] * 5 + [False]))
             else {"k": k, "run": None, "gc": None, "motifs": None},
             "map_order": draw(st.sampled_from([None, 1, 2, 3])),
+            "layout": draw(st.sampled_from([None, None, None, "F", "strided", "int32"])),
             "motifs": draw(st.lists(st.text(alphabet="ACGT", min_size=1, max_size=3), min_size=1, max_size=3)),
             "strand": strand, "corrupted": corrupted,
             "number": str(draw(st.integers(10, 10 ** 30)))}
